@@ -116,6 +116,13 @@ def lexical_sites(out, lib):
         for part in re.split(r"\s\\\s", line):
             m = re.match(r"^\s*(?:\d+\s+)?run\s+([A-Za-z_][A-Za-z0-9_]*)\((.*)\)\s*$", part, re.I)
             if not m:
+                m2 = re.match(r"^\s*(?:\d+\s+)?run\s+([A-Za-z_][A-Za-z0-9_]*)\(", part, re.I)
+                if m2 and m2.group(1).lower() in lib and line.count('"') % 2 == 1:
+                    # the call's argument list does not end on its line, inside a string constant: the callee is handed
+                    # fewer arguments than it declares (and half a string)
+                    n += 1
+                    viols.append(("C14/arity/%s/call-cut-off-inside-a-string" % m2.group(1).lower(),
+                                  {"where": "program", "call": m2.group(1).lower(), "line": i + 1, "text": part.strip()[:160]}))
                 continue
             low = m.group(1).lower()
             if low in static.SYSTEM_MODULES or low == "inkey" or low not in lib:
@@ -194,6 +201,12 @@ def run_case(case):
         return obs
     main = procs[-1]
     n, viols, seen = check_sites(main, lib, "program")
+    if opts.get("output_dependencies"):
+        # a bundle: what the program calls is defined in the text itself
+        defined = {p_.name.lower() for p_ in procs}
+        for callee in sorted({s_.split("(")[0].lower() for s_ in seen}):
+            if callee in lib and callee not in defined:
+                viols.append(("C14/bundle/called-procedure-not-defined", {"callee": callee}))
     obs["counters"]["run_sites_checked"] = n
     obs["key"] = sorted(seen) or "none"
     obs["nontrivial"] = n > 0
@@ -260,6 +273,14 @@ def cases(tier, seed):
             for a in ([arm] if tier == "quick" else arms):
                 yield {"kind": "text", "text": a.replace("%s", st), "opts": [{}, {"initialize_vars": True}][m % 2]}
     yield {"kind": "text", "text": "10 INPUT A,B$:LINE INPUT C$:READ A,B$\n20 DATA 1,,X", "opts": {}}
+    # string constants holding characters that a line-splitting routine of the host language (not the tool's grammar) takes
+    # for line ends, with and without the runtime procedures in front of the program: the call is still one call
+    for j, t in enumerate(stemplates):
+        k = t.count("%s")
+        for ch in "\x0b\x0c\x1c\x1d\x1e\x85\u2028\u2029":
+            lit = '"PAGE%sTWO"' % ch
+            for o in ({}, {"output_dependencies": True, "procname": "prog"}, {"output_dependencies": True, "procname": "prog", "default_str_storage": 80}):
+                yield {"kind": "text", "text": "10 " + t % tuple([lit] * k), "opts": o}
     # string variables and arrays whose names begin with a word BASIC09 reserves (PI, SQ, DO): still strings where a string
     # is declared
     for t in ('PLAY PI$', 'HDRAW SQ$(1)', 'A=INSTR(1,PI$,"D")', 'A$=STRING$(3,DO$)', 'A=VAL(DO$)', 'HPRINT(1,2),SQ$(1)', 'PI$="X":PRINT PI$;DO$(2)',
